@@ -248,12 +248,16 @@ class Interp:
             ts = [zbool(self.truthy(self.eval(v, fr))) for v in e.values]
             return VBool(simp(z3.And(*ts) if isinstance(e.op, ast.And) else z3.Or(*ts)))
         if all(pure_expr(v) for v in e.values):
-            # operands cannot raise or have effects: evaluate them all and build one term (no fork)
-            vals = [self.eval(v, fr) for v in e.values]
-            if all(isinstance(v, VBool) for v in vals):
+            # operands cannot raise or have effects: evaluate them all and build one term (no fork); an operand that
+            # cannot be evaluated on its own (e.g. `x < 0` guarded by `x is None or`) sends us to the short-circuit path
+            try:
+                vals = [self.eval(v, fr) for v in e.values]
+            except Unsupported:
+                vals = None
+            if vals is not None and all(isinstance(v, VBool) for v in vals):
                 ts = [zbool(v.t) for v in vals]
                 return VBool(simp(z3.And(*ts) if isinstance(e.op, ast.And) else z3.Or(*ts)))
-            for i, val in enumerate(vals):
+            for i, val in enumerate(vals or []):
                 if i == len(vals) - 1:
                     return val
                 t = self.st.decide(self.truthy(val))
